@@ -27,7 +27,7 @@ fn write_field_encoded_data(dst: &mut Vec<u8>, src: &[u8]) -> io::Result<()> {
     }
 }
 
-fn write_generic_data<'r, D>(dst: &mut Vec<u8>, data: D) -> io::Result<()>
+pub(super) fn write_generic_data<'r, D>(dst: &mut Vec<u8>, data: D) -> io::Result<()>
 where
     D: Data<'r>,
 {
